@@ -51,6 +51,10 @@ func driveOnce(plan []M, out *Out, _ []string) {
 		var o3e sync2.Once3[int, int, error]
 		var o1e sync2.Once1[error]
 		errTyped := boolean(sc, "err")
+		zeroRes := boolean(sc, "zero") // the function returns zero values, nil interfaces included (Once1[error], Once2[int, any], ...)
+		var z1 sync2.Once1[error]
+		var z2 sync2.Once2[int, any]
+		var z3 sync2.Once3[int, error, any]
 		gate := make(chan struct{})
 		inF := make(chan int, 16)
 		effect := 0 // plain variable written as the function's last statement
@@ -80,7 +84,7 @@ func driveOnce(plan []M, out *Out, _ []string) {
 					a, b, c := o3.Do(nil)
 					vals = []int{a, b, c}
 				}
-				log(M{"ev": "ret", "t": t, "vals": vals, "effect": effect})
+				log(M{"ev": "ret", "t": t, "vals": vals, "effect": effect, "zero": false})
 				return
 			}
 			var vals []int
@@ -90,7 +94,30 @@ func driveOnce(plan []M, out *Out, _ []string) {
 				}
 				return 0
 			}
+			isNil := func(x any) int {
+				if x == nil {
+					return 0
+				}
+				return -7
+			}
 			switch {
+			case zeroRes:
+				if p := protect(func() {
+					switch arity {
+					case 1:
+						a := z1.Do(func() error { body(); return nil })
+						vals = []int{isNil(a)}
+					case 2:
+						a, b := z2.Do(func() (int, any) { body(); return 0, nil })
+						vals = []int{a, isNil(b)}
+					default:
+						a, b, c := z3.Do(func() (int, error, any) { body(); return 0, nil, nil })
+						vals = []int{a, isNil(b), isNil(c)}
+					}
+				}); p != "" {
+					log(M{"ev": "ret", "t": t, "vals": []int{-9}, "effect": effect, "zero": true, "panic": p})
+					return
+				}
 			case arity == 1 && errTyped:
 				a := o1e.Do(func() error { body(); return idErr(t*10 + 1) })
 				vals = []int{unerr(a)}
@@ -110,7 +137,7 @@ func driveOnce(plan []M, out *Out, _ []string) {
 				a, b, c := o3.Do(func() (int, int, int) { body(); return t*10 + 1, t*10 + 2, t*10 + 3 })
 				vals = []int{a, b, c}
 			}
-			log(M{"ev": "ret", "t": t, "vals": vals, "effect": effect})
+			log(M{"ev": "ret", "t": t, "vals": vals, "effect": effect, "zero": zeroRes})
 		}
 		t := 0
 		start := func(n int) {
